@@ -120,14 +120,14 @@ theorem takePad_deinterleave (d : β) (ch m n : Nat) (buf : List β) (c : Nat) (
   rfl
 
 /-- a 1-channel resampler reading the projected block sees exactly what channel `c` of the multi-channel one reads -/
-theorem decode_proj (cfg : Cfg α β) (c m n : Nat) (b : InBuf β) (h : m ≤ n) :
-    decodeIn (monoCfg cfg) m (projIn cfg c n b) 0 = decodeIn cfg m b c := by
+theorem decode_proj (cfg : Cfg α β) (mc : Nat → List α → List β × Nat × Nat) (c m n : Nat) (b : InBuf β) (h : m ≤ n) :
+    decodeIn (monoCfgC cfg mc) m (projIn cfg c n b) 0 = decodeIn cfg m b c := by
   cases b with
   | inter flat =>
-    simp only [projIn, decodeIn, monoCfg]
+    simp only [projIn, decodeIn, monoCfgC]
     rw [deinterleave_one, takePad_deinterleave _ _ _ _ _ _ h]
   | split chans =>
-    simp only [projIn, decodeIn, monoCfg]
+    simp only [projIn, decodeIn, monoCfgC]
     show takePad cfg.dflt m (takePad cfg.dflt n (chans.getD c [])) = _
     rw [takePad_takePad _ _ _ _ h]
 
@@ -173,6 +173,77 @@ theorem convAll_pure {cout : Nat → List α → List β × Nat × Nat} (P : Pur
   induction ys generalizing seed with
   | nil => rfl
   | cons y ys ih => simp [convAll, P.eq, ih]
+
+/-- `mc` is what channel `c` of a `ch`-channel resampler gets out of the shared conversion pass: its converted samples, its
+    clips and the seed the WHOLE pass leaves behind, as a function of the seed before the pass and channel `c`'s samples —
+    whenever all channels carry the same number of samples -/
+structure ChanConv (cout : Nat → List α → List β × Nat × Nat) (ch c : Nat) (mc : Nat → List α → List β × Nat × Nat) : Prop where
+  view : ∀ (seed d : Nat) (ys : List (List α)), ys.length = ch → (∀ y ∈ ys, y.length = d) →
+    (convAll cout seed ys).1.getD c [] = (mc seed (ys.getD c [])).1 ∧
+    (convAll cout seed ys).2.1.getD c 0 = (mc seed (ys.getD c [])).2.1 ∧
+    (convAll cout seed ys).2.2 = (mc seed (ys.getD c [])).2.2
+
+/-- seed-free conversion: every channel's view is the conversion itself -/
+theorem chanConv_of_pure {cout : Nat → List α → List β × Nat × Nat} (P : PureConv cout) (ch c : Nat) (hc : c < ch) :
+    ChanConv cout ch c cout := by
+  refine ⟨fun seed d ys hl _ => ?_⟩
+  rw [convAll_pure P, P.eq]
+  have hc' : c < ys.length := by omega
+  refine ⟨?_, ?_, rfl⟩
+  · exact getD_map' P.f ys c [] [] hc'
+  · exact getD_map' P.g ys c [] 0 hc'
+
+/-- the seed after `k` channels of `d` samples each, when the seed advance depends on the seed and the sample count only -/
+def skip (adv : Nat → Nat → Nat) (d : Nat) : Nat → Nat → Nat
+  | 0, s => s
+  | k + 1, s => skip adv d k (adv s d)
+
+/-- channel `c`'s view of a conversion that draws from one seed stream for all `ch` channels in turn -/
+def chanView (cout : Nat → List α → List β × Nat × Nat) (adv : Nat → Nat → Nat) (ch c : Nat) :
+    Nat → List α → List β × Nat × Nat :=
+  fun seed ys => ((cout (skip adv ys.length c seed) ys).1, (cout (skip adv ys.length c seed) ys).2.1, skip adv ys.length ch seed)
+
+theorem convAll_skip (cout : Nat → List α → List β × Nat × Nat) (adv : Nat → Nat → Nat)
+    (hadv : ∀ seed ys, (cout seed ys).2.2 = adv seed ys.length) (d : Nat) (ys : List (List α)) :
+    ∀ (seed : Nat), (∀ y ∈ ys, y.length = d) →
+      (convAll cout seed ys).2.2 = skip adv d ys.length seed ∧
+      ∀ k, k < ys.length →
+        (convAll cout seed ys).1.getD k [] = (cout (skip adv d k seed) (ys.getD k [])).1 ∧
+        (convAll cout seed ys).2.1.getD k 0 = (cout (skip adv d k seed) (ys.getD k [])).2.1 := by
+  induction ys with
+  | nil => intro seed _; exact ⟨rfl, fun k hk => absurd hk (Nat.not_lt_zero k)⟩
+  | cons y ys ih =>
+    intro seed hd
+    have hy : y.length = d := hd y List.mem_cons_self
+    have hrest := ih (cout seed y).2.2 (fun z hz => hd z (List.mem_cons_of_mem _ hz))
+    have hs : (cout seed y).2.2 = adv seed d := by rw [hadv, hy]
+    refine ⟨?_, ?_⟩
+    · simp only [convAll, List.length_cons, skip]
+      rw [hrest.1, hs]
+    · intro k hk
+      cases k with
+      | zero => simp [convAll, skip]
+      | succ k =>
+        have := hrest.2 k (by simpa using hk)
+        simp only [convAll, List.getD_cons_succ, skip]
+        rw [this.1, this.2, hs]
+        exact ⟨rfl, rfl⟩
+
+/-- a conversion whose seed advance depends on the seed and the number of samples only (rint-clip.h with dither: two LCG
+    draws per block of 16 and two for the tail): channel `c` sees `chanView` -/
+theorem chanConv_of_seedLen (cout : Nat → List α → List β × Nat × Nat) (adv : Nat → Nat → Nat)
+    (hadv : ∀ seed ys, (cout seed ys).2.2 = adv seed ys.length) (ch c : Nat) (hc : c < ch) :
+    ChanConv cout ch c (chanView cout adv ch c) := by
+  refine ⟨fun seed d ys hl hd => ?_⟩
+  have h := convAll_skip cout adv hadv d ys seed hd
+  have hc' : c < ys.length := by omega
+  have hlen : (ys.getD c []).length = d := by
+    rw [List.getD_eq_getElem?_getD, List.getElem?_eq_getElem hc']
+    exact hd _ (List.getElem_mem hc')
+  unfold chanView
+  simp only [hlen]
+  refine ⟨(h.2 c hc').1, (h.2 c hc').2, ?_⟩
+  rw [h.1, hl]
 
 variable {E : Engine σ α}
 
